@@ -14,7 +14,10 @@
     the property goes (member of the class; one value per class; stable until a union joins the
     class), and every snapshot is a forest whose roots are class members, whose root sizes are the
     class cardinalities, and in which every parent chain has length <= log2 (class size).  A call with an
-    index out of range must panic and must leave a value that still represents the same partition. *)
+    index out of range must panic and must leave a value that still represents the same partition; so must a
+    [reset n] with n >= 2^60 (the buffer request of n * 8 bytes exceeds isize::MAX: 'capacity overflow'): whatever
+    the caller does with the value after catching the unwind, it is still the partition built so far.  Such an [n]
+    is never converted to a unary number. *)
 From Coq Require Import List Arith NArith Bool.
 From RlibV Require Import Common.Batch C05.Model.
 Import ListNotations.
@@ -104,7 +107,7 @@ Definition to_mop (o : nop) : mop :=
   | NPar c v => On (nn c) (Par (nn v))
   | NCheck c u v => On (nn c) (Check (nn u) (nn v))
   | NSize c v => On (nn c) (Size (nn v))
-  | NReset c n => On (nn c) (Reset (nn n))
+  | NReset c n => On (nn c) (Reset n)
   | NClone c => Clone (nn c)
   end.
 
@@ -246,7 +249,10 @@ Definition opt_snap (q : part) (sn : option snap) : option part :=
 Definition cidx (o : nop) : nat :=
   match o with NUn c _ _ | NPar c _ | NCheck c _ _ | NSize c _ | NReset c _ | NClone c => nn c end.
 
-(** must this call panic? (index out of range; a copy index that does not exist) *)
+(** a reset to this many elements cannot get its buffer: n >= 2^60 *)
+Definition reset_refused (n : N) : bool := (1152921504606846976 <=? n)%N.
+
+(** must this call panic? (index out of range; a reset that cannot get its buffer; a copy index that does not exist) *)
 Definition must_panic (qs : list part) (o : nop) : bool :=
   match nth_error qs (cidx o) with
   | None => true
@@ -254,7 +260,8 @@ Definition must_panic (qs : list part) (o : nop) : bool :=
       match o with
       | NUn _ u v | NCheck _ u v => negb (inr_ q (nn u) && inr_ q (nn v))
       | NPar _ v | NSize _ v => negb (inr_ q (nn v))
-      | NReset _ _ | NClone _ => false
+      | NReset _ n => reset_refused n
+      | NClone _ => false
       end
   end.
 
